@@ -253,7 +253,7 @@ func Tier2(nRules int, perRuleRealisation bool, outs []string) *Space {
 // RotationMacIP puts mac() into one program with sip() and dip(): MAC sets and CIDR sets share the builder's
 // LPM set table, so their order of first occurrence across rules matters.
 var RotationMacIP = [3]Atom{
-	{"mac", bare(MacA), bare(MacA, "02:42:ac:11:00:04")},
+	{"mac", bare("02:42:ac:11:00:06"), bare("02:42:ac:11:00:06", "02:42:ac:11:00:08")},
 	{"sip", bare("10.0.0.0/8"), bare("10.0.0.0/8", "192.168.0.0/16")},
 	{"dip", bare("203.0.113.0/24"), bare("203.0.113.0/24", "2001:db8:1::/64")},
 }
